@@ -307,7 +307,7 @@ theorem step_sim {m : Mem} {t : Table} (hinv : Inv m) (he : Table.Equiv m.abs t)
       by_cases hk : i = id ∧ x = c
       · obtain ⟨h1, h2⟩ := hk
         subst h1; subst h2
-        simp [hg, Table.load_cons, Table.load_nil]
+        simp [hg, Table.load_cons]
       · simp only [hk, if_false]
         cases m.get2 i x with
         | some _ => rfl
